@@ -5,6 +5,8 @@ use crate::{ansi, Buffer, CallbackAction, Caret, EngineResult, Size};
 
 mod cmd;
 use cmd::IgsCommands;
+#[cfg(icy_engine_verif)]
+pub use cmd::IgsCommands as VerifIgsCommands;
 mod paint;
 pub use paint::*;
 
